@@ -57,7 +57,15 @@ func (e *c11Engine) NewDictionaryConnection(p DictionaryConnectionParams) Dictio
 type c11Script struct {
 	RWQ    bool     `json:"rwq"`
 	Dict   bool     `json:"dict"`
-	Window []string `json:"window"` // ops inside the connect window: send | subscribe | pub0
+	Pos    bool     `json:"pos,omitempty"` // the connect-time subscription is positioned
+	Window []string `json:"window"` // ops inside the connect window: send | subscribe | pub0 | pub
+	// ops at the moment the connect reply is handed to the transport (OnTransportWrite of the
+	// connect frame; ReplyWithoutQueue only: the command goroutine itself is parked there, after
+	// all the connect-time subscribe work and before the write): send | subscribe | pub0 | pub.
+	// "pub" is a publication WITH offset on the connect-time subscription: the subscription is not
+	// installed yet, so it is dropped (non-positioned) or held behind the recovery buffer until
+	// after the reply (positioned)
+	Late []string `json:"late,omitempty"`
 	After  []string `json:"after"`  // ops after the connect reply: send | rpc | pub0
 	Close  string   `json:"close"`  // "" (plain close at the end) | "during-encode" (close while a reply sits inside Encode)
 }
@@ -81,6 +89,9 @@ type c11World struct {
 	errs       []string
 	readerDone chan struct{}
 	nsub       int
+	armTW      int32
+	firstEarly string        // the operation that put the first frame on the wire before the connect reply
+	parked     chan struct{} // a positioned publication parked behind the recovery buffer (at most one)
 }
 
 func (w *c11World) ev(e string) {
@@ -131,8 +142,15 @@ func c11NewWorld(t *testing.T, sc *c11Script) *c11World {
 		return ConnectReply{
 			Credentials:       &Credentials{UserID: "u11"},
 			ReplyWithoutQueue: sc.RWQ,
-			Subscriptions:     map[string]SubscribeOptions{c11Ch: {}},
+			Subscriptions:     map[string]SubscribeOptions{c11Ch: {EnablePositioning: sc.Pos}},
 		}, nil
+	})
+	n.OnTransportWrite(func(c *Client, e TransportWriteEvent) bool {
+		if e.FrameType == protocol.FrameTypeConnect && atomic.CompareAndSwapInt32(&w.armTW, 1, 0) {
+			w.arrive <- "tw"
+			<-w.release
+		}
+		return true
 	})
 	n.OnConnect(func(c *Client) {
 		c.OnRPC(func(e RPCEvent, cb RPCCallback) { cb(RPCReply{Data: []byte(`{}`)}, nil) })
@@ -192,7 +210,7 @@ func (w *c11World) opw(name string, direct bool, window bool) {
 			w.fail("client not in the hub for %s", name)
 			return
 		}
-		if name != "pub0" {
+		if name != "pub0" && name != "pub" {
 			return
 		}
 	}
@@ -211,6 +229,33 @@ func (w *c11World) opw(name string, direct bool, window bool) {
 		for _, tk := range w.br.take() {
 			_ = w.br.h.HandlePublication(c11Ch, tk.pub, tk.sp, false, nil)
 		}
+	case "pub":
+		// a publication with an offset (history stream) on the connect-time subscription
+		if _, err := w.node.Publish(c11Ch, []byte(`{"p":1}`), WithHistory(100, time.Minute)); err != nil {
+			w.fail("publish: %v", err)
+			return
+		}
+		toks := w.br.take()
+		if window && w.sc.Pos && w.parked == nil {
+			// may block behind the locked recovery buffer until the connect command goes on
+			done := make(chan struct{})
+			w.parked = done
+			go func() {
+				for _, tk := range toks {
+					_ = w.br.h.HandlePublication(c11Ch, tk.pub, tk.sp, false, nil)
+				}
+				close(done)
+			}()
+			select {
+			case <-done: // not held (buffered or dropped)
+				w.parked = nil
+			case <-time.After(50 * time.Millisecond):
+			}
+		} else {
+			for _, tk := range toks {
+				_ = w.br.h.HandlePublication(c11Ch, tk.pub, tk.sp, false, nil)
+			}
+		}
 	case "rpc":
 		_ = w.conn.WriteMessage(websocket.TextMessage, []byte(`{"id":2,"rpc":{"method":"m","data":{}}}`))
 	}
@@ -221,6 +266,9 @@ func (w *c11World) opw(name string, direct bool, window bool) {
 		}
 		if w.wireLen() == before {
 			return
+		}
+		if w.firstEarly == "" {
+			w.firstEarly = name
 		}
 	}
 	if direct {
@@ -277,6 +325,20 @@ func (w *c11World) run() {
 		}
 		w.opw(o, false, true)
 	}
+	late := w.sc.RWQ && len(w.sc.Late) > 0
+	if late {
+		atomic.StoreInt32(&w.armTW, 1)
+		w.release <- struct{}{}
+		select {
+		case <-w.arrive:
+		case <-time.After(5 * time.Second):
+			w.fail("connect reply did not reach the transport write hook")
+			return
+		}
+		for _, o := range w.sc.Late {
+			w.opw(o, false, true)
+		}
+	}
 	before := w.wireLen()
 	w.release <- struct{}{}
 	w.emit("AConnReply")
@@ -288,6 +350,25 @@ func (w *c11World) run() {
 	} else {
 		w.emit("AWBegin")
 		w.emit("AWEnd")
+	}
+	if w.parked != nil {
+		// the held publication goes out once the connect command installed the subscription
+		n0 := before + 1 // (the frames before the release, and the connect reply)
+		select {
+		case <-w.parked:
+		case <-time.After(5 * time.Second):
+			w.fail("parked publication never released")
+			return
+		}
+		deadline := time.Now().Add(300 * time.Millisecond)
+		for w.wireLen() == n0 && time.Now().Before(deadline) {
+			time.Sleep(200 * time.Microsecond)
+		}
+		if w.wireLen() > n0 {
+			w.emit("APush")
+			w.emit("AWBegin")
+			w.emit("AWEnd")
+		}
 	}
 	if !w.waitFor("client registered in the hub", func() bool { return w.client() != nil }) {
 		return
@@ -379,8 +460,13 @@ func (w *c11World) shutdown() {
 	_ = w.node.Shutdown(context.Background())
 }
 
-func c11Key(sc *c11Script, wire, elog []string) string {
+func c11Key(sc *c11Script, firstEarly string, wire, elog []string) string {
 	if len(wire) > 0 && !strings.Contains(wire[0], "IConn") {
+		if firstEarly == "pub" {
+			// a publication with offset on a connect-time subscription that is not installed yet:
+			// not the window finding (Send / subscribe push / offset-less publication)
+			return "held-publication-before-connect-reply"
+		}
 		return "push-before-connect-reply"
 	}
 	active, closed := 0, false
@@ -421,6 +507,27 @@ func c11RandScript(r *rand.Rand) *c11Script {
 	if r.Intn(4) == 0 {
 		sc.Close = "during-encode"
 	}
+	// drawn last: the scripts of a seed stay what they were otherwise
+	sc.Pos = r.Intn(2) == 0
+	if sc.RWQ && r.Intn(2) == 0 {
+		lateOps := []string{"pub", "pub", "send", "pub0", "subscribe"}
+		npub := 0
+		for k := 0; k < 1+r.Intn(2); k++ {
+			o := lateOps[r.Intn(len(lateOps))]
+			if o == "pub" {
+				if npub++; npub > 1 {
+					continue
+				}
+			}
+			sc.Late = append(sc.Late, o)
+		}
+	}
+	if len(sc.Window) > 0 && r.Intn(3) == 0 {
+		sc.Window = append(sc.Window, "pub")
+	}
+	if r.Intn(3) == 0 {
+		sc.After = append(sc.After, "pub")
+	}
 	return sc
 }
 
@@ -437,6 +544,12 @@ func TestVerifC11(t *testing.T) {
 		{Dict: true, RWQ: true, After: []string{"rpc"}, Close: "during-encode"}, // FINDING candidate: Close during Encode
 		{Dict: true, After: []string{"rpc"}, Close: "during-encode"},            // queue mode: close waits for the writer
 		{Dict: false, Window: []string{"send"}},
+		// publications with offset while the connect reply is handed to the transport: dropped (plain) ...
+		{Dict: true, RWQ: true, Late: []string{"pub"}, After: []string{"pub", "send"}},
+		// ... or held until the subscription is installed, after the reply (positioned)
+		{Dict: true, RWQ: true, Pos: true, Late: []string{"pub"}, After: []string{"pub"}},
+		{Dict: false, RWQ: true, Pos: true, Window: []string{"pub"}, Late: []string{"pub", "send"}},
+		{Dict: true, RWQ: true, Late: []string{"pub0"}}, // the window finding, at the later gate
 	}
 	for i := 0; i < w.N; i++ {
 		if !w.Want(i) {
@@ -473,10 +586,16 @@ func TestVerifC11(t *testing.T) {
 		if len(sc.Window) > 0 {
 			class += "/window"
 		}
+		if sc.RWQ && len(sc.Late) > 0 {
+			class += "/late"
+		}
+		if sc.Pos {
+			class += "/pos"
+		}
 		if sc.Close != "" {
 			class += "/close-during-encode"
 		}
-		key := c11Key(sc, wire, elog)
+		key := c11Key(sc, world.firstEarly, wire, elog)
 		if len(world.errs) > 0 {
 			class = "driver-error"
 			wire = append(wire, "(WEnc IConn)", "(WEnc IConn)")
